@@ -103,6 +103,9 @@ func run(env *Env, chk *Check, res *Result) (int, error) {
 		bin := filepath.Join(env.Tmp, "gophersat")
 		cmd := exec.Command("go", "build", "-o", bin, ".")
 		cmd.Dir = "/repo"
+		if alt := os.Getenv("VERIF_DEV_REPO"); alt != "" {
+			cmd.Dir = alt
+		}
 		cmd.Env = goEnv()
 		if b, err := cmd.CombinedOutput(); err != nil {
 			return 2, MachineryError{fmt.Sprintf("cannot build the gophersat executable from /repo: %v\n%s", err, b)}
